@@ -13,6 +13,9 @@
  * Arming: if FAULTFS_START=disarmed nothing is counted, logged or failed until the process calls mkdir("/@faultfs/arm");
  * mkdir("/@faultfs/disarm") stops it again (both return -1/ENOENT, as they would without the shim).
  * statx/stat based probes (Path::exists, is_dir) and readdir are deliberately not intercepted (outside C12's quantifier).
+ * FAULTFS_FIXED_RANDOM=1: getrandom() answers with a fixed byte pattern, so that the iteration order of the child's std
+ * HashMaps (per-process env deltas, exec.d programs: RandomState is seeded from getrandom) is the same in every run of a pair;
+ * a fault position k of the fault-free trace then means the same call in the faulted run.
  */
 #define _GNU_SOURCE
 #include <dlfcn.h>
@@ -237,4 +240,12 @@ ssize_t sendfile64(int out, int in, off64_t *off, size_t c) {
     if (!p) return real(out, in, off, c);
     long n; if (gate("sendfile", p, &n)) return -1;
     ssize_t r = real(out, in, off, c); int e = errno; logline(n, "sendfile", p, r >= 0 ? 0 : e, 0); errno = e; return r;
+}
+
+/* ------------------------------------------------------------------------------------------------ reproducible hashing */
+ssize_t getrandom(void *buf, size_t len, unsigned int flags) {
+    static int fixed = -1;
+    if (fixed < 0) { const char *s = getenv("FAULTFS_FIXED_RANDOM"); fixed = (s && *s == '1') ? 1 : 0; }
+    if (fixed) { memset(buf, 0x5a, len); return (ssize_t)len; }
+    return (ssize_t)syscall(SYS_getrandom, buf, len, flags);
 }
